@@ -284,3 +284,41 @@ func sliceBuilder(c *Ctx, v ssa.Value) (home *ssa.Function, mk *ssa.MakeSlice, v
 	}
 	return g, mk, call
 }
+
+// absentGuarded: block blk runs only when an element (recognised by isElem)
+// is absent from a "seen" map, in any spelling of the test — `!seen[x]`,
+// `if seen[x] { continue }`, `if _, dup := seen[x]; dup { continue }` with a
+// bool or struct{} map — and the element is entered into that map under the
+// same test.
+func absentGuarded(cd map[*ssa.BasicBlock][]ssau.CtrlDep, blk *ssa.BasicBlock, isElem func(ssa.Value) bool) bool {
+	for _, d := range ssau.TransitiveControlDeps(cd, blk) {
+		cond, absentOn := d.If().Cond, false // the edge on which "absent" holds
+		if u, ok := cond.(*ssa.UnOp); ok && u.Op == token.NOT {
+			cond, absentOn = u.X, true
+		}
+		var lk *ssa.Lookup
+		switch x := cond.(type) {
+		case *ssa.Lookup:
+			if !x.CommaOk {
+				lk = x
+			}
+		case *ssa.Extract:
+			if l, ok := x.Tuple.(*ssa.Lookup); ok && l.CommaOk && x.Index == 1 {
+				lk = l
+			}
+		}
+		if lk == nil || !isElem(lk.Index) || d.Then != absentOn {
+			continue
+		}
+		for _, ref := range *lk.X.Referrers() {
+			if mu, ok := ref.(*ssa.MapUpdate); ok && mu.Map == lk.X && isElem(mu.Key) {
+				for _, d2 := range ssau.TransitiveControlDeps(cd, mu.Block()) {
+					if d2 == d {
+						return true
+					}
+				}
+			}
+		}
+	}
+	return false
+}
